@@ -18,7 +18,9 @@ def run_script(case):
                 r = e.rows(step[1])
                 out.append({"status": r["status"], "rows": r["rows"], "message": r.get("message"), "error": r.get("error")})
             elif step[0] == "raw":
-                e.cmd(step[1]); out.append(None)
+                r = e.cmd(step[1])
+                # the answer of a planner probe is part of the observations, other controls are not
+                out.append({"rlte": r.get("plan"), "status": None, "rows": None} if step[1].startswith("!rlte ") else None)
             elif step[0] == "quiesce":
                 e.cmd("!flushwait"); e.cmd("!wal_drained 3000"); out.append(None)
             elif step[0] == "restart":
